@@ -38,6 +38,10 @@ def cases(tier, rng):
                 if n < 0:
                     continue
                 ps.append({"x": "tw", "n": n, "ncls": "int", "wells": wells, "present": present, "len": ln})
+        # large n: a 1536-well plate served from one trough well, thousands of steps from a few wells
+        if ln in (1, 2, 3, 8, 26):
+            for n in ((1536, 4097) if tier == "quick" else (384, 1536, 4097, 10000)):
+                ps.append({"x": "tw", "n": n, "ncls": "int", "wells": shapes[0][0], "present": "list" if ln != 8 else "ndarray", "len": ln})
         # results are fresh lists: editing one must not influence a later call with equal arguments
         for n in (1, ln, 2 * ln + 1):
             ps.append({"x": "tw", "n": n, "ncls": "int", "wells": shapes[0][0], "present": "list", "len": ln, "mutate": True})
